@@ -23,6 +23,9 @@ CONSTANTS
   BugSkipInval = TRUE
   Dedicated = FALSE
   BugNoTrackingOff = FALSE
+  CacheChoices = {TRUE}
+  BugLossNilNeedsCache = FALSE
+  BugUnsubWrongSub = FALSE
 VIEW MCView
 INVARIANTS TypeOK InvalidationLog
 CHECK_DEADLOCK FALSE
